@@ -538,3 +538,549 @@ Proof.
       pose proof (span_not_all _ _ _ _ E F) as Ht. destruct t; [congruence|]. f_equal. exact IH.
     + f_equal. exact IH.
 Qed.
+
+(* ====================================================================== the whole pipeline on lines *)
+(* steps 1-4: tabs become spaces, every form of line end becomes "\n" *)
+Definition canon_ws (r : list Z) : list Z :=
+  resub (m_byte CR NL) 0 (resub (m_pair NL CR NL) 0 (resub (m_pair CR NL NL) 0 (resub (m_byte TAB SP) 0 r))).
+
+Definition is_single_empty (t : list (list Z)) : bool :=
+  match t with [[]] => true | _ => false end.
+
+Definition dollar_head (h : list Z) (t : list (list Z)) : list Z :=
+  if forallb is_sp h && (is_nil t || is_single_empty t) then [] else h.
+
+Lemma head_dollar_cons h t : head_dollar (h :: t) = dollar_head h t :: t.
+Proof.
+  unfold dollar_head. destruct t as [|[|c l1] [|l2 t]]; cbn [head_dollar is_nil is_single_empty orb];
+    try rewrite andb_false_r; try rewrite andb_true_r; try reflexivity;
+    destruct (forallb is_sp h); reflexivity.
+Qed.
+
+Definition fmt_head (cfg : fcfg) (l0 : list Z) (ls : list (list Z)) : list Z :=
+  let h := if is_nil ls then l0 else rstrip l0 in
+  if f_at_start cfg
+  then head_xx SLASH [SLASH; SLASH] (head_xx DASH [DASH; DASH] h)
+  else head_xx DASH [SP; SP; DASH; DASH] h.
+
+Definition fmt_tail (cfg : fcfg) (ls : list (list Z)) : list (list Z) :=
+  let ind := indent_bytes cfg in
+  map_last (indent_last ind) (map (reind SLASH ind) (map (reind DASH ind) (map_init rstrip ls))).
+
+(* the lines of the formatted run, before the end-of-file rule *)
+Definition fmt_lines (cfg : fcfg) (l0 : list Z) (ls : list (list Z)) : list (list Z) :=
+  let h := fmt_head cfg l0 ls in
+  let t := fmt_tail cfg ls in
+  (if f_at_start cfg then dollar_head h t else h) :: sq t.
+
+Lemma map_last_const g ls : map_last (fun _ => g) ls = map g ls.
+Proof. induction ls as [|l r IH]; cbn; [reflexivity|]. f_equal. exact IH. Qed.
+
+Lemma noNL_app a b : noNL a -> noNL b -> noNL (a ++ b).
+Proof. intros; apply Forall_app; split; assumption. Qed.
+
+Lemma noNL_rstrip l : noNL l -> noNL (rstrip l).
+Proof.
+  induction l as [|c r IH]; intros H; [constructor|]. inversion H; subst. cbn [rstrip].
+  destruct (forallb is_sp (c :: r)); [constructor|]. constructor; [assumption | apply IH; assumption].
+Qed.
+
+Lemma noNL_repeat_sp n : noNL (repeat SP n).
+Proof. induction n; cbn; constructor; [discriminate | assumption]. Qed.
+
+Lemma noNL_reind x ind l : noNL ind -> noNL l -> noNL (reind x ind l).
+Proof.
+  intros Hi Hl. unfold reind. destruct (starts2 x (lstrip l)); [|exact Hl].
+  apply noNL_app; [exact Hi | apply lstrip_noNL; exact Hl].
+Qed.
+
+Lemma noNL_skipn n l : noNL l -> noNL (skipn n l).
+Proof. intros H. unfold noNL. apply Forall_forall. intros c Hc. unfold noNL in H. rewrite Forall_forall in H.
+  apply H. rewrite <- (firstn_skipn n l). apply in_or_app. right. exact Hc. Qed.
+
+Lemma noNL_head_xx x rep l : noNL rep -> noNL l -> noNL (head_xx x rep l).
+Proof.
+  intros Hr Hl. unfold head_xx. destruct (starts2 x (lstrip l)); [|exact Hl].
+  apply noNL_app; [exact Hr | apply noNL_skipn, lstrip_noNL; exact Hl].
+Qed.
+
+Lemma noNL_indent_last ind b l : noNL ind -> noNL l -> noNL (indent_last ind b l).
+Proof. intros Hi Hl. unfold indent_last. destruct (b && forallb is_sp l); assumption. Qed.
+
+Lemma Forall_map_last (P : list Z -> Prop) f ls :
+  (forall b l, P l -> P (f b l)) -> Forall P ls -> Forall P (map_last f ls).
+Proof.
+  intros Hf. induction ls as [|l r IH]; intros H; [constructor|]. inversion H; subst.
+  cbn [map_last]. constructor; auto.
+Qed.
+
+Lemma Forall_map' (P : list Z -> Prop) g ls :
+  (forall l, P l -> P (g l)) -> Forall P ls -> Forall P (map g ls).
+Proof.
+  intros Hg H. induction H; cbn; constructor; auto.
+Qed.
+
+Lemma noNL_map_init_rstrip ls : Forall noNL ls -> Forall noNL (map_init rstrip ls).
+Proof.
+  apply Forall_map_last. intros b l Hl. destruct b; [exact Hl | apply noNL_rstrip; exact Hl].
+Qed.
+
+Lemma noNL_lit2 a b : a <> NL -> b <> NL -> noNL [a; b].
+Proof. intros; repeat constructor; assumption. Qed.
+
+Lemma noNL_fmt_tail cfg ls : Forall noNL ls -> Forall noNL (fmt_tail cfg ls).
+Proof.
+  intros H. unfold fmt_tail, indent_bytes.
+  apply Forall_map_last; [intros; apply noNL_indent_last; [apply noNL_repeat_sp | assumption]|].
+  apply Forall_map'; [intros; apply noNL_reind; [apply noNL_repeat_sp | assumption]|].
+  apply Forall_map'; [intros; apply noNL_reind; [apply noNL_repeat_sp | assumption]|].
+  apply noNL_map_init_rstrip. exact H.
+Qed.
+
+Theorem fmt_run_lines cfg r l0 ls : split_nl (canon_ws r) = l0 :: ls ->
+  fmt_run cfg r =
+  (if f_at_end cfg then trail_nl (joinl (fmt_lines cfg l0 ls)) else joinl (fmt_lines cfg l0 ls)).
+Proof.
+  intros HS. rewrite fmt_run_eq. unfold fmt_run_unfolded. fold (canon_ws r).
+  pose proof (split_nl_noNL (canon_ws r)) as HN. rewrite HS in HN.
+  rewrite <- (joinl_split (canon_ws r)), HS.
+  inversion HN as [|? ? H0 Hls]; subst.
+  set (ind := indent_bytes cfg).
+  assert (Hind : noNL ind) by apply noNL_repeat_sp.
+  (* 5 *)
+  rewrite sub_sp1_nl_lines by (discriminate || assumption).
+  change (map_init rstrip (l0 :: ls)) with ((if is_nil ls then l0 else rstrip l0) :: map_init rstrip ls).
+  set (h5 := if is_nil ls then l0 else rstrip l0).
+  assert (Hh5 : noNL h5) by (unfold h5; destruct (is_nil ls); [assumption | apply noNL_rstrip; assumption]).
+  pose proof (noNL_map_init_rstrip ls Hls) as Ht5.
+  set (t5 := map_init rstrip ls) in *.
+  (* 6 *)
+  set (h6 := if f_at_start cfg then h5 else head_xx DASH [SP; SP; DASH; DASH] h5).
+  assert (E6 : (if negb (f_at_start cfg) then sub_head_sp_xx DASH [SP; SP; DASH; DASH] (joinl (h5 :: t5)) else joinl (h5 :: t5))
+               = joinl (h6 :: t5)).
+  { unfold h6. destruct (f_at_start cfg); cbn [negb]; [reflexivity|]. apply sub_head_sp_xx_lines. reflexivity. }
+  rewrite E6. clear E6.
+  assert (Hh6 : noNL h6).
+  { unfold h6. destruct (f_at_start cfg); [assumption|]. apply noNL_head_xx; [|assumption].
+    repeat constructor; discriminate. }
+  (* 7, 7b *)
+  rewrite (resub_joinl _ (fun _ => reind DASH ind)) by
+    (apply headed_nl_sp_xx || (intros; apply line_nl_sp_xx; (reflexivity || assumption)) || (constructor; assumption)).
+  rewrite map_last_const.
+  assert (Ht7 : Forall noNL (map (reind DASH ind) t5))
+    by (apply Forall_map'; [intros; apply noNL_reind; assumption | assumption]).
+  rewrite (resub_joinl _ (fun _ => reind SLASH ind)) by
+    (apply headed_nl_sp_xx || (intros; apply line_nl_sp_xx; (reflexivity || assumption)) || (constructor; assumption)).
+  rewrite map_last_const.
+  assert (Ht7b : Forall noNL (map (reind SLASH ind) (map (reind DASH ind) t5)))
+    by (apply Forall_map'; [intros; apply noNL_reind; assumption | assumption]).
+  set (t7 := map (reind SLASH ind) (map (reind DASH ind) t5)) in *.
+  (* 8, 8b *)
+  set (h8 := if f_at_start cfg then head_xx SLASH [SLASH; SLASH] (head_xx DASH [DASH; DASH] h6) else h6).
+  assert (E8 : (if f_at_start cfg
+                then sub_head_sp_xx SLASH [SLASH; SLASH]
+                       (if f_at_start cfg then sub_head_sp_xx DASH [DASH; DASH] (joinl (h6 :: t7)) else joinl (h6 :: t7))
+                else (if f_at_start cfg then sub_head_sp_xx DASH [DASH; DASH] (joinl (h6 :: t7)) else joinl (h6 :: t7)))
+               = joinl (h8 :: t7)).
+  { unfold h8. destruct (f_at_start cfg); [|reflexivity].
+    rewrite sub_head_sp_xx_lines by reflexivity. apply sub_head_sp_xx_lines. reflexivity. }
+  rewrite E8. clear E8.
+  assert (Hh8 : noNL h8).
+  { unfold h8. destruct (f_at_start cfg); [|assumption].
+    apply noNL_head_xx; [repeat constructor; discriminate|].
+    apply noNL_head_xx; [repeat constructor; discriminate | assumption]. }
+  (* 9 *)
+  rewrite (resub_joinl _ (indent_last ind)) by
+    (apply headed_nl_sp_end || (intros; apply line_nl_sp_end; assumption) || (constructor; assumption)).
+  assert (Ht9 : Forall noNL (map_last (indent_last ind) t7))
+    by (apply Forall_map_last; [intros; apply noNL_indent_last; assumption | assumption]).
+  set (t9 := map_last (indent_last ind) t7) in *.
+  (* 10 *)
+  set (h10 := if f_at_start cfg then dollar_head h8 t9 else h8).
+  assert (E10 : (if f_at_start cfg then sub_head_sp_dollar (joinl (h8 :: t9)) else joinl (h8 :: t9)) = joinl (h10 :: t9)).
+  { unfold h10. destruct (f_at_start cfg); [|reflexivity].
+    rewrite sub_head_sp_dollar_lines by (constructor; assumption). rewrite head_dollar_cons. reflexivity. }
+  rewrite E10. clear E10.
+  assert (Hh10 : noNL h10).
+  { unfold h10, dollar_head. destruct (f_at_start cfg); [|assumption].
+    destruct (forallb is_sp h8 && _); [constructor | assumption]. }
+  (* 11 *)
+  rewrite sub_nl_nl1_lines by (constructor; assumption).
+  (* 12 *)
+  rewrite sub_spnl1_end.
+  assert (EL : h10 :: sq t9 = fmt_lines cfg l0 ls).
+  { unfold fmt_lines, fmt_head, fmt_tail. fold ind. fold t5. fold h5. unfold h10, h8, h6, t9, t7.
+    destruct (f_at_start cfg); reflexivity. }
+  rewrite EL. reflexivity.
+Qed.
+
+(* ====================================================================== reading texts as lines *)
+Lemma split_nl_app_nl p s : split_nl (p ++ NL :: s) = split_nl p ++ split_nl s.
+Proof.
+  induction p as [|c p IH]; [reflexivity|]. cbn [app split_nl].
+  destruct (c =? NL); [rewrite IH; reflexivity|].
+  rewrite IH. destruct (split_nl p) as [|l t] eqn:E; [destruct (split_nl_nonempty _ E)|]. reflexivity.
+Qed.
+
+Lemma split_nl_noNL_line l : noNL l -> split_nl l = [l].
+Proof.
+  induction l as [|c l IH]; intros H; [reflexivity|]. inversion H; subst. cbn [split_nl].
+  apply Z.eqb_neq in H2. rewrite H2, IH by assumption. reflexivity.
+Qed.
+
+Lemma split_joinl l0 ls : Forall noNL (l0 :: ls) -> split_nl (joinl (l0 :: ls)) = l0 :: ls.
+Proof.
+  revert l0. induction ls as [|l1 ls IH]; intros l0 H; inversion H; subst.
+  - cbn [joinl flat concat map]. rewrite app_nil_r. apply split_nl_noNL_line. assumption.
+  - rewrite joinl_cons2, split_nl_app_nl, IH by assumption.
+    rewrite split_nl_noNL_line by assumption. reflexivity.
+Qed.
+
+(* ====================================================================== shape of the formatted lines *)
+Lemma last_app' {A} (a b : list A) d : b <> [] -> last (a ++ b) d = last b d.
+Proof.
+  intros Hb. induction a as [|x a IH]; [reflexivity|]. cbn [app].
+  destruct (a ++ b) eqn:E; [destruct a; [cbn in E; congruence | discriminate]|].
+  cbn [last]. exact IH.
+Qed.
+
+Lemma sq_nonempty : forall n t, (length t <= n)%nat -> t <> [] -> sq t <> [].
+Proof.
+  induction n as [|n IH]; intros t Hn Hne; [destruct t; [congruence | cbn in Hn; lia]|].
+  destruct t as [|l r]; [congruence|]. cbn in Hn. cbn [sq].
+  destruct (is_nil l); [|discriminate].
+  destruct r as [|l' r']; [discriminate|]. destruct (is_nil l'); [|discriminate].
+  destruct r' as [|x r'']; [discriminate|]. apply IH; [cbn in *; lia | discriminate].
+Qed.
+
+Lemma last_sq (t : list (list Z)) d : t <> [] -> last (sq t) d = last t d.
+Proof.
+  assert (G : forall n t, (length t <= n)%nat -> t <> [] -> last (sq t) d = last t d).
+  { induction n as [|n IH]; intros t0 Hn Hne; [destruct t0; [congruence | cbn in Hn; lia]|].
+    destruct t0 as [|l r]; [congruence|]. cbn in Hn.
+    destruct l as [|c l].
+    - destruct (empties_decomp r) as (e & rest & -> & [-> | (l' & r' & -> & Hl')]).
+      + rewrite app_nil_r. destruct e as [|e]; [reflexivity|].
+        rewrite sq_empties_end. change ([] :: empties (S e)) with (empties (S (S e))).
+        clear. induction e as [|e IH]; [reflexivity|]. exact IH.
+      + rewrite sq_empties_then by assumption.
+        change ([] :: empties e ++ l' :: r') with (([] :: empties e) ++ l' :: r').
+        rewrite last_app' by discriminate.
+        destruct r' as [|x r'].
+        * destruct l'; [congruence|]. reflexivity.
+        * change ([] :: l' :: sq (x :: r')) with ([[]; l'] ++ sq (x :: r')).
+          rewrite last_app' by (apply (sq_nonempty (length (x :: r'))); [lia | discriminate]).
+          change (l' :: x :: r') with ([l'] ++ x :: r'). rewrite last_app' by discriminate.
+          apply IH; [|discriminate]. rewrite app_length in Hn. cbn in *. lia.
+    - cbn [sq is_nil]. destruct r as [|x r]; [reflexivity|].
+      change ((c :: l) :: sq (x :: r)) with ([c :: l] ++ sq (x :: r)).
+      rewrite last_app' by (apply (sq_nonempty (length (x :: r))); [lia | discriminate]).
+      change ((c :: l) :: x :: r) with ([c :: l] ++ x :: r). rewrite last_app' by discriminate.
+      apply IH; [cbn in *; lia | discriminate]. }
+  intros H. apply (G (length t)); [lia | exact H].
+Qed.
+
+(* the squeeze, read as a filter: an empty line is dropped when the next line is empty too and is
+   not the last one *)
+Fixpoint sq' (ls : list (list Z)) : list (list Z) :=
+  match ls with
+  | [] => []
+  | l :: r =>
+    match r with
+    | l' :: (_ :: _) => if is_nil l && is_nil l' then sq' r else l :: sq' r
+    | _ => l :: sq' r
+    end
+  end.
+
+Lemma sq'_cons_nonempty l r : l <> [] -> sq' (l :: r) = l :: sq' r.
+Proof. intros H. destruct l; [congruence|]. destruct r as [|l' [|x y]]; reflexivity. Qed.
+
+Lemma sq'_drop_empty rest : rest <> [] -> sq' ([] :: [] :: rest) = sq' ([] :: rest).
+Proof. intros H. destruct rest as [|x y]; [congruence|]. reflexivity. Qed.
+
+Lemma sq'_empties_then e l r : l <> [] -> sq' ([] :: empties e ++ l :: r) = [] :: l :: sq' r.
+Proof.
+  intros Hl. induction e as [|e IH]; cbn [empties repeat app].
+  - destruct l; [congruence|]. destruct r as [|x1 [|y1 z1]]; reflexivity.
+  - rewrite sq'_drop_empty; [exact IH|]. destruct e; discriminate.
+Qed.
+
+Lemma sq'_empties_end e : sq' ([] :: empties (S e)) = [[]; []].
+Proof.
+  induction e as [|e IH]; [reflexivity|].
+  change (empties (S (S e))) with ([] :: empties (S e)).
+  rewrite sq'_drop_empty; [exact IH | discriminate].
+Qed.
+
+Lemma sq_eq t : sq t = sq' t.
+Proof.
+  assert (G : forall n t, (length t <= n)%nat -> sq t = sq' t).
+  { induction n as [|n IH]; intros t0 Hn; [destruct t0; [reflexivity | cbn in Hn; lia]|].
+    destruct t0 as [|l r]; [reflexivity|]. cbn in Hn. destruct l as [|c l].
+    - destruct (empties_decomp r) as (e & rest & -> & [-> | (l' & r' & -> & Hl')]).
+      + rewrite app_nil_r. destruct e as [|e]; [reflexivity|].
+        rewrite sq_empties_end, sq'_empties_end. reflexivity.
+      + rewrite sq_empties_then, sq'_empties_then by assumption. rewrite IH; [reflexivity|].
+        rewrite app_length in Hn. cbn in *. lia.
+    - rewrite sq'_cons_nonempty by discriminate. cbn [sq is_nil]. rewrite IH by lia. reflexivity. }
+  apply (G (length t)). lia.
+Qed.
+
+Lemma sq'_In x t : In x (sq' t) -> In x t.
+Proof.
+  induction t as [|l r IH]; [auto|]. cbn [sq'].
+  destruct r as [|l' [|y1 z1]].
+  - auto.
+  - intros [H | H]; [left; exact H | right; apply IH; exact H].
+  - destruct (is_nil l && is_nil l'); intros H.
+    + right. apply IH. exact H.
+    + destruct H as [H | H]; [left; exact H | right; apply IH; exact H].
+Qed.
+
+Lemma Forall_sq (P : list Z -> Prop) t : Forall P t -> Forall P (sq t).
+Proof.
+  rewrite sq_eq, !Forall_forall. intros H x Hx. apply H, sq'_In, Hx.
+Qed.
+
+(* all lines but the last *)
+Lemma sq'_nonempty t : t <> [] -> sq' t <> [].
+Proof.
+  induction t as [|l r IH]; [congruence|]. intros _. cbn [sq'].
+  destruct r as [|l' [|y1 z1]]; try discriminate.
+  destruct (is_nil l && is_nil l'); [apply IH; discriminate | discriminate].
+Qed.
+
+Lemma removelast_cons {A} (x : A) l : l <> [] -> removelast (x :: l) = x :: removelast l.
+Proof. destruct l; [congruence | reflexivity]. Qed.
+
+Lemma sq'_init_In x t : In x (removelast (sq' t)) -> In x (removelast t).
+Proof.
+  induction t as [|l r IH]; [auto|]. cbn [sq'].
+  destruct r as [|l' [|y1 z1]].
+  - auto.
+  - cbn. auto.
+  - assert (Hne : l' :: y1 :: z1 <> []) by discriminate.
+    rewrite (removelast_cons l) by exact Hne.
+    destruct (is_nil l && is_nil l'); intros H.
+    + right. apply IH. exact H.
+    + rewrite removelast_cons in H by (apply sq'_nonempty; exact Hne).
+      destruct H as [H | H]; [left; exact H | right; apply IH; exact H].
+Qed.
+
+(* ---------- noNL of the formatted lines ---------- *)
+Lemma noNL_fmt_lines cfg l0 ls : Forall noNL (l0 :: ls) -> Forall noNL (fmt_lines cfg l0 ls).
+Proof.
+  intros H. inversion H; subst. unfold fmt_lines. constructor.
+  - assert (Hh : noNL (fmt_head cfg l0 ls)).
+    { unfold fmt_head.
+      assert (noNL (if is_nil ls then l0 else rstrip l0))
+        by (destruct (is_nil ls); [assumption | apply noNL_rstrip; assumption]).
+      destruct (f_at_start cfg); repeat (apply noNL_head_xx; [repeat constructor; discriminate|]); assumption. }
+    destruct (f_at_start cfg); [|exact Hh]. unfold dollar_head.
+    destruct (forallb is_sp (fmt_head cfg l0 ls) && _); [constructor | exact Hh].
+  - apply Forall_sq, noNL_fmt_tail. assumption.
+Qed.
+
+Lemma map_last_nonempty f t : t <> [] -> map_last f t <> [].
+Proof. destruct t; [congruence | discriminate]. Qed.
+
+Lemma last_cons {A} (a : A) b d : b <> [] -> last (a :: b) d = last b d.
+Proof. destruct b; [congruence | reflexivity]. Qed.
+
+Lemma last_map_last f t d : t <> [] -> last (map_last f t) d = f true (last t d).
+Proof.
+  induction t as [|l r IH]; [congruence|]. intros _. destruct r as [|l' r']; [reflexivity|].
+  change (map_last f (l :: l' :: r')) with (f false l :: map_last f (l' :: r')).
+  rewrite last_cons by (apply map_last_nonempty; discriminate).
+  rewrite IH by discriminate. reflexivity.
+Qed.
+
+(* ====================================================================== G: the token after the run is indented *)
+Theorem fmt_run_indent cfg r p q : f_at_end cfg = false ->
+  fmt_run cfg r = p ++ NL :: q -> noNL q -> forallb is_sp q = true -> q = indent_bytes cfg.
+Proof.
+  intros He Ho Hq Hsp.
+  destruct (split_nl (canon_ws r)) as [|l0 ls] eqn:HS; [destruct (split_nl_nonempty _ HS)|].
+  rewrite (fmt_run_lines cfg r l0 ls HS), He in Ho.
+  pose proof (split_nl_noNL (canon_ws r)) as HN. rewrite HS in HN.
+  pose proof (noNL_fmt_lines cfg l0 ls HN) as HM.
+  apply (f_equal split_nl) in Ho.
+  unfold fmt_lines in Ho, HM. rewrite split_joinl in Ho by exact HM.
+  rewrite split_nl_app_nl, (split_nl_noNL_line q Hq) in Ho.
+  destruct (split_nl p) as [|p0 pt] eqn:EP; [destruct (split_nl_nonempty _ EP)|].
+  cbn [app] in Ho. injection Ho as _ Ho.
+  assert (Hl : last (sq (fmt_tail cfg ls)) [] = q) by (rewrite Ho; apply last_last).
+  assert (Hne : fmt_tail cfg ls <> []).
+  { intros E. rewrite E in Ho. cbn in Ho. destruct pt; discriminate. }
+  rewrite last_sq in Hl by exact Hne. unfold fmt_tail in Hl, Hne.
+  rewrite last_map_last in Hl.
+  2:{ intros E. apply Hne. rewrite E. reflexivity. }
+  unfold indent_last in Hl. cbn [andb] in Hl.
+  destruct (forallb is_sp (last _ _)) eqn:F; [congruence|]. rewrite Hl in F. congruence.
+Qed.
+
+(* ====================================================================== B: no line of the run ends in a blank *)
+Fixpoint has_sp_nl (s : list Z) : bool :=
+  match s with
+  | a :: ((b :: _) as r) => ((a =? SP) && (b =? NL)) || has_sp_nl r
+  | _ => false
+  end.
+
+Fixpoint ends_sp (l : list Z) : bool :=
+  match l with
+  | [] => false
+  | c :: r => match r with [] => c =? SP | _ => ends_sp r end
+  end.
+
+Lemma has_sp_nl_noNL l : noNL l -> has_sp_nl l = false.
+Proof.
+  induction l as [|c l IH]; intros H; [reflexivity|]. inversion H; subst.
+  destruct l as [|d l]; [reflexivity|]. cbn [has_sp_nl]. inversion H3; subst.
+  apply Z.eqb_neq in H4. rewrite H4, andb_false_r. cbn [orb]. apply IH. assumption.
+Qed.
+
+Lemma has_sp_nl_line l s : noNL l -> has_sp_nl (l ++ NL :: s) = ends_sp l || has_sp_nl s.
+Proof.
+  induction l as [|c l IH]; intros H.
+  - cbn [app ends_sp orb]. destruct s as [|b s]; [reflexivity|]. cbn [has_sp_nl]. reflexivity.
+  - inversion H; subst. destruct l as [|d l].
+    + cbn [app has_sp_nl ends_sp]. rewrite Z.eqb_refl, andb_true_r.
+      destruct s as [|b s]; [cbn; rewrite orb_false_r; reflexivity|]. cbn [has_sp_nl]. reflexivity.
+    + cbn [app has_sp_nl ends_sp]. inversion H3; subst. apply Z.eqb_neq in H4.
+      rewrite H4, andb_false_r. cbn [orb]. apply IH. assumption.
+Qed.
+
+Lemma has_sp_nl_joinl : forall L, Forall noNL L ->
+  has_sp_nl (joinl L) = existsb ends_sp (removelast L).
+Proof.
+  induction L as [|l L IH]; intros H; [reflexivity|]. inversion H; subst.
+  destruct L as [|l' ls].
+  - cbn. rewrite app_nil_r. apply has_sp_nl_noNL. assumption.
+  - rewrite joinl_cons2, has_sp_nl_line by assumption. rewrite IH by assumption.
+    rewrite (removelast_cons l) by discriminate. reflexivity.
+Qed.
+
+Lemma ends_sp_app a b : b <> [] -> ends_sp (a ++ b) = ends_sp b.
+Proof.
+  intros Hb. induction a as [|c a IH]; [reflexivity|]. cbn [app ends_sp].
+  destruct (a ++ b) eqn:E; [destruct a; [cbn in E; congruence | discriminate]|]. exact IH.
+Qed.
+
+Lemma rstrip_nil l : rstrip l = [] -> forallb is_sp l = true.
+Proof.
+  destruct l as [|c l]; [reflexivity|]. cbn [rstrip].
+  destruct (forallb is_sp (c :: l)); [reflexivity | discriminate].
+Qed.
+
+Lemma ends_sp_rstrip l : ends_sp (rstrip l) = false.
+Proof.
+  induction l as [|c l IH]; [reflexivity|]. cbn [rstrip].
+  destruct (forallb is_sp (c :: l)) eqn:F; [reflexivity|]. cbn [ends_sp].
+  destruct (rstrip l) eqn:E; [|exact IH].
+  apply rstrip_nil in E. cbn [forallb] in F. rewrite E, andb_true_r in F. exact F.
+Qed.
+
+Lemma ends_sp_lstrip l : ends_sp l = false -> ends_sp (lstrip l) = false.
+Proof.
+  intros H. destruct (lstrip l) eqn:E; [reflexivity|]. rewrite <- E.
+  rewrite (lstrip_spec l) in H. rewrite ends_sp_app in H by (rewrite E; discriminate). exact H.
+Qed.
+
+Lemma starts2_nonempty x l : starts2 x l = true -> l <> [].
+Proof. destruct l; [discriminate | discriminate]. Qed.
+
+Lemma ends_sp_reind x ind l : ends_sp l = false -> ends_sp (reind x ind l) = false.
+Proof.
+  intros H. unfold reind. destruct (starts2 x (lstrip l)) eqn:S; [|exact H].
+  rewrite ends_sp_app by (apply (starts2_nonempty x); exact S). apply ends_sp_lstrip. exact H.
+Qed.
+
+Lemma ends_sp_head_xx x rep l : (x =? SP) = false -> ends_sp l = false ->
+  ends_sp (head_xx x (rep ++ [x; x]) l) = false.
+Proof.
+  intros Hx H. unfold head_xx. destruct (starts2 x (lstrip l)) eqn:S; [|exact H].
+  pose proof (ends_sp_lstrip l H) as HL.
+  destruct (lstrip l) as [|a [|b t]]; try discriminate. cbn [skipn].
+  destruct t as [|c t].
+  - rewrite app_nil_r, ends_sp_app by discriminate. cbn. exact Hx.
+  - rewrite ends_sp_app by discriminate. exact HL.
+Qed.
+
+Lemma removelast_map {A B} (g : A -> B) l : removelast (map g l) = map g (removelast l).
+Proof.
+  induction l as [|a l IH]; [reflexivity|]. destruct l as [|b l]; [reflexivity|].
+  change (map g (a :: b :: l)) with (g a :: map g (b :: l)).
+  rewrite (removelast_cons (g a)) by (cbn; discriminate).
+  rewrite (removelast_cons a) by discriminate. cbn [map]. f_equal. exact IH.
+Qed.
+
+Lemma removelast_map_last f t : removelast (map_last f t) = map (f false) (removelast t).
+Proof.
+  induction t as [|a l IH]; [reflexivity|]. destruct l as [|b l]; [reflexivity|].
+  change (map_last f (a :: b :: l)) with (f false a :: map_last f (b :: l)).
+  rewrite (removelast_cons (f false a)) by (apply map_last_nonempty; discriminate).
+  rewrite (removelast_cons a) by discriminate. cbn [map]. f_equal. exact IH.
+Qed.
+
+Lemma fmt_tail_init cfg ls x : In x (removelast (fmt_tail cfg ls)) ->
+  exists y, In y (removelast ls) /\
+            x = reind SLASH (indent_bytes cfg) (reind DASH (indent_bytes cfg) (rstrip y)).
+Proof.
+  unfold fmt_tail, map_init. rewrite removelast_map_last, map_map.
+  rewrite !removelast_map, removelast_map_last, !map_map. rewrite in_map_iff.
+  intros (y & <- & Hy). exists y. split; [exact Hy|]. unfold indent_last. reflexivity.
+Qed.
+
+Lemma fmt_lines_init_ends cfg l0 ls x :
+  In x (removelast (fmt_lines cfg l0 ls)) -> ends_sp x = false.
+Proof.
+  unfold fmt_lines. set (t := fmt_tail cfg ls). intros H.
+  destruct (sq t) as [|s1 st] eqn:ES; [destruct H|].
+  rewrite removelast_cons in H by discriminate. destruct H as [H | H].
+  - (* the first line: it is followed by a line feed, so ls is not empty *)
+    assert (Hls : is_nil ls = false).
+    { destruct ls; [|reflexivity]. subst t. cbn in ES. discriminate. }
+    assert (Hh : ends_sp (fmt_head cfg l0 ls) = false).
+    { unfold fmt_head. rewrite Hls. destruct (f_at_start cfg).
+      - apply (ends_sp_head_xx SLASH []); [reflexivity|].
+        apply (ends_sp_head_xx DASH []); [reflexivity|]. apply ends_sp_rstrip.
+      - apply (ends_sp_head_xx DASH [SP; SP]); [reflexivity|]. apply ends_sp_rstrip. }
+    subst x. destruct (f_at_start cfg); [|exact Hh]. unfold dollar_head.
+    destruct (forallb is_sp _ && _); [reflexivity | exact Hh].
+  - rewrite <- ES, sq_eq in H. apply sq'_init_In in H. subst t.
+    apply fmt_tail_init in H. destruct H as (y & _ & ->).
+    apply ends_sp_reind, ends_sp_reind, ends_sp_rstrip.
+Qed.
+
+Lemma existsb_false {A} (p : A -> bool) l : (forall x, In x l -> p x = false) -> existsb p l = false.
+Proof.
+  intros H. induction l as [|a l IH]; [reflexivity|]. cbn. rewrite H by (left; reflexivity).
+  apply IH. intros x Hx. apply H. right. exact Hx.
+Qed.
+
+Lemma has_sp_nl_trail_nl s : has_sp_nl s = false -> has_sp_nl (trail_nl s) = false.
+Proof.
+  induction s as [|c r IH]; intros H; [reflexivity|]. cbn [trail_nl].
+  destruct (forallb is_sp_nl (c :: r)) eqn:F; [reflexivity|].
+  destruct r as [|d r']; [reflexivity|].
+  assert (Hr : has_sp_nl (d :: r') = false).
+  { cbn [has_sp_nl] in H. apply orb_false_iff in H. apply H. }
+  specialize (IH Hr). cbn [trail_nl] in *.
+  destruct (forallb is_sp_nl (d :: r')) eqn:F2.
+  - cbn [has_sp_nl]. rewrite Z.eqb_refl, andb_true_r, orb_false_r.
+    cbn [forallb] in F. cbn [forallb] in F2. rewrite F2, andb_true_r in F.
+    unfold is_sp_nl in F. apply orb_false_iff in F. apply F.
+  - cbn [has_sp_nl]. cbn [has_sp_nl] in H. apply orb_false_iff in H. destruct H as [H1 _].
+    rewrite H1. cbn [orb]. exact IH.
+Qed.
+
+Theorem fmt_run_no_trailing_blank cfg r : has_sp_nl (fmt_run cfg r) = false.
+Proof.
+  destruct (split_nl (canon_ws r)) as [|l0 ls] eqn:HS; [destruct (split_nl_nonempty _ HS)|].
+  rewrite (fmt_run_lines cfg r l0 ls HS).
+  pose proof (split_nl_noNL (canon_ws r)) as HN. rewrite HS in HN.
+  pose proof (noNL_fmt_lines cfg l0 ls HN) as HM.
+  assert (E : has_sp_nl (joinl (fmt_lines cfg l0 ls)) = false).
+  { rewrite has_sp_nl_joinl by exact HM. apply existsb_false. apply fmt_lines_init_ends. }
+  destruct (f_at_end cfg); [apply has_sp_nl_trail_nl|]; exact E.
+Qed.
